@@ -118,6 +118,7 @@ class Poly:
     def __init__(self, r, T, mod):
         self.r, self.T, self.mod = r, T, mod
         self.vars = [Var(n, T) for n in ('x', 'y', 'z')]
+        self.more_vars = self.vars + [Var(n, T) for n in ('w', 'v')]
         self.plus = Const('plus', TFun(T, T, T))
         self.times = Const('times', TFun(T, T, T))
 
@@ -133,6 +134,25 @@ class Poly:
         if c < 0.5:
             return self.plus(self.expr(d - 1), self.expr(d - 1))
         return self.times(self.expr(d - 1), self.expr(d - 1))
+
+    def product_pair(self):
+        """Two products of the same multiset of 2-6 atoms (five variables, small numerals), each randomly
+        parenthesised (so that right operands with three and more factors occur) and ordered."""
+        r = self.r
+        atoms = [r.choice(self.more_vars) if r.random() < 0.85 else self.num(r.choice([2, 3])) for _ in range(r.choice([2, 3, 4, 4, 5, 6]))]
+
+        def nestp(ms):
+            if len(ms) == 1:
+                return ms[0]
+            k = r.choice([1, 1, len(ms) - 1, r.randrange(1, len(ms))])
+            return self.times(nestp(ms[:k]), nestp(ms[k:]))
+        a2 = list(atoms)
+        r.shuffle(a2)
+        e1, e2 = nestp(atoms), nestp(a2)
+        if r.random() < 0.3:
+            extra = self.expr(1)
+            e1, e2 = self.plus(e1, extra), self.plus(extra, e2)
+        return e1, e2
 
     def rearrange(self, t, steps=6):
         """Value-preserving rearrangement: commutativity, associativity, distribution at random positions."""
@@ -273,9 +293,12 @@ def run_check(tier, seed):
             continue
         P = Poly(r, T, mod)
         name = '%s-normaliser' % thy
-        for i in range(30 * scale):
-            e1 = P.expr(r.choice([1, 2, 3]))
-            e2 = P.rearrange(e1, r.choice([2, 4, 8]))
+        for i in range(45 * scale):
+            if i % 3 == 2:
+                e1, e2 = P.product_pair()
+            else:
+                e1 = P.expr(r.choice([1, 2, 3]))
+                e2 = P.rearrange(e1, r.choice([2, 4, 8]))
             p1 = check_conv(run, name, mk(), e1)
             p2 = check_conv(run, name, mk(), e2)
             if p1 is None or p2 is None:
@@ -293,7 +316,8 @@ def run_check(tier, seed):
     run.cov['rule'] = ('conjunctions / disjunctions of 1-5 members from 12 atoms (variables, applications, negation, equality, quantified, alpha '
                        'variants), random nesting, permuted with duplicates; 18 conversion instances on random well-typed terms (with double '
                        'negations planted), top_conv rewriting to an abstraction under a supplied condition; polynomials over x y z and numerals '
-                       'of depth 1-3 at nat / int / real with 2-8 commutativity / associativity / distribution steps')
+                       'of depth 1-3 at nat / int / real with 2-8 commutativity / associativity / distribution steps; one third: two random '
+                       'parenthesisations and orders of a product of 2-6 atoms over five variables')
     run.assumptions = ['abs_conv / top_conv / rewr_conv and the arithmetic normalisers are explored on generated inputs, not modelled',
                        'canonicity of polynomial normal forms has no theorem (per-pair check)']
     return run.finish()
